@@ -68,6 +68,8 @@ class Model(object):
         # Initialise to blank some useful stuff
         # Interpolation points
         self.xbase = x0.copy()
+        self.xl = xl.copy()  # bounds in absolute coordinates: final clip, since xbase + (xl - xbase) may differ from xl by rounding
+        self.xu = xu.copy()
         self.sl = xl - self.xbase  # lower bound w.r.t. xbase (require xpt >= sl)
         self.su = xu - self.xbase  # upper bound w.r.t. xbase (require xpt <= su)
         self.projections = projections
@@ -141,7 +143,7 @@ class Model(object):
             # Apply bounds and convert back to absolute coordinates
             if self.projections:
                 return dykstra(self.projections, self.xbase + self.points[k,:])
-            return self.xbase + np.minimum(np.maximum(self.sl, self.points[k, :]), self.su)
+            return np.minimum(np.maximum(self.xl, self.xbase + np.minimum(np.maximum(self.sl, self.points[k, :]), self.su)), self.xu)
 
     def rvec(self, k):
         assert 0 <= k < self.npt(), "Invalid index %g" % k
@@ -155,7 +157,7 @@ class Model(object):
         # If x were an interpolation point, get the absolute coordinates of x
         if self.projections:
             return dykstra(self.projections, self.xbase + x)
-        return self.xbase + np.minimum(np.maximum(self.sl, x), self.su)
+        return np.minimum(np.maximum(self.xl, self.xbase + np.minimum(np.maximum(self.sl, x), self.su)), self.xu)
 
     def xpt_directions(self, include_kopt=True):
         if include_kopt:
